@@ -66,6 +66,7 @@ type fnCtx struct {
 	locals map[*types.Var]orig // origins of local variables (fixpoint): everything reachable from the value
 	own    map[*types.Var]orig // ... and the memory the value itself refers to (its array, its pointee)
 	shallow bool               // origins() is asked for the latter
+	results []*types.Var       // named results
 	lits   map[*types.Var]*ast.FuncLit
 	// closure parameters: origins collected from the call sites of the closure variable
 	body ast.Node
@@ -80,16 +81,20 @@ type effAnalysis struct {
 	decls   map[*types.Func]*ast.FuncDecl
 	allLits []*litInfo
 	memo    map[string]effSet
+	prev    map[string]effSet
 	active  map[string]bool
 	// package-level slice variables declared without initialiser and never assigned,
 	// address-taken or passed by name to anything but a parameter: nil for ever
 	nilGlobals map[*types.Var]bool
+	// package-level `var ErrX = errors.New(...)` / `fmt.Errorf(...)`, never assigned: immutable values
+	constErrors map[*types.Var]bool
 }
 
 // nil-for-ever globals: `var x []T` with no initialiser whose identifier never occurs
 // on the left of an assignment, under &, or in an inc/dec statement, in any file.
 func (a *effAnalysis) findNilGlobals() {
 	a.nilGlobals = map[*types.Var]bool{}
+	a.constErrors = map[*types.Var]bool{}
 	for _, f := range a.p.files {
 		for _, d := range f.Decls {
 			gd, ok := d.(*ast.GenDecl)
@@ -98,6 +103,16 @@ func (a *effAnalysis) findNilGlobals() {
 			}
 			for _, sp := range gd.Specs {
 				vs := sp.(*ast.ValueSpec)
+				if len(vs.Values) == len(vs.Names) {
+					for i, n := range vs.Names {
+						if c, ok := vs.Values[i].(*ast.CallExpr); ok {
+							src := strings.Join(strings.Fields(a.p.src(c.Fun)), "")
+							if v, ok := a.info.Defs[n].(*types.Var); ok && (src == "errors.New" || src == "fmt.Errorf") && v.Type().String() == "error" {
+								a.constErrors[v] = true
+							}
+						}
+					}
+				}
 				if len(vs.Values) != 0 {
 					continue
 				}
@@ -131,12 +146,14 @@ func (a *effAnalysis) findNilGlobals() {
 				for _, l := range s.Lhs {
 					if v := root(l); v != nil {
 						delete(a.nilGlobals, v)
+						delete(a.constErrors, v)
 					}
 				}
 			case *ast.UnaryExpr:
 				if s.Op == token.AND {
 					if v := root(s.X); v != nil {
 						delete(a.nilGlobals, v)
+						delete(a.constErrors, v)
 					}
 				}
 			case *ast.IncDecStmt:
@@ -257,6 +274,9 @@ func (c *fnCtx) origins(e ast.Expr) orig {
 		} else if v.Parent() == c.a.tp.Scope() || (v.Pkg() != nil && v.Parent() == v.Pkg().Scope()) {
 			if c.a.nilGlobals[v] {
 				return o // a slice variable that is nil for the life of the program aliases no memory
+			}
+			if c.a.constErrors[v] {
+				return o // an error value made once by errors.New / fmt.Errorf and never reassigned: nothing to write
 			}
 			o["global:"+v.Name()] = true
 		} else if c.shallow {
@@ -392,6 +412,22 @@ func (c *fnCtx) locOrigins(e ast.Expr) orig {
 		o["unknown"] = true
 	}
 	return o
+}
+
+// retain records that memory owned by dst may come to hold a reference into memory owned by
+// src (an assignment, copy or call that stores a reference-typed value): "retain|dst|src".
+func (c *fnCtx) retain(dst, src orig, what string, n ast.Node) {
+	for d := range dst {
+		if d == "fresh" || d == "unknown" {
+			continue
+		}
+		for s := range src {
+			if s == "fresh" || s == "unknown" || s == d {
+				continue
+			}
+			c.eff.add("retain|"+d+"|"+s, c.where(n)+" "+what)
+		}
+	}
 }
 
 func (c *fnCtx) write(o orig, what string, n ast.Node) {
@@ -557,6 +593,20 @@ func (c *fnCtx) callOrigins(call *ast.CallExpr) orig {
 			return o
 		}
 	}
+	if fn := c.staticCallee(call); fn != nil && fn.Pkg() == c.a.tp && c.a.decls[fn] != nil {
+		// an in-package function: what its return statements say
+		sum := c.a.summary(fn, c.literalBools(call))
+		sig := fn.Type().(*types.Signature)
+		o["fresh"] = true
+		for k := range sum {
+			if !strings.HasPrefix(k, "result|") {
+				continue
+			}
+			parts := strings.SplitN(k, "|", 3)
+			o.addAll(c.mapSide(call, sig, parts[2]))
+		}
+		return o
+	}
 	// any other call: the result may alias the receiver and every reference argument
 	if sel, ok := call.Fun.(*ast.SelectorExpr); ok {
 		if _, ok := c.a.info.Selections[sel]; ok {
@@ -581,6 +631,31 @@ func (c *fnCtx) callOrigins(call *ast.CallExpr) orig {
 	}
 	o["fresh"] = true
 	return o
+}
+
+// absorbBySummary: for every "retain|dst|src" of the callee, the local at the root of what dst
+// is at this call site takes in what src is here
+func (c *fnCtx) absorbBySummary(call *ast.CallExpr, fn *types.Func, sum effSet, absorb func(ast.Expr, orig)) {
+	sig := fn.Type().(*types.Signature)
+	for k := range sum {
+		if !strings.HasPrefix(k, "retain|") {
+			continue
+		}
+		parts := strings.SplitN(k, "|", 3)
+		src := c.mapSide(call, sig, parts[2])
+		switch {
+		case parts[1] == "recv":
+			if rx := c.recvExprOf(call); rx != nil {
+				absorb(rx, src)
+			}
+		case strings.HasPrefix(parts[1], "param:"):
+			var i int
+			fmt.Sscanf(parts[1], "param:%d", &i)
+			if i < len(call.Args) {
+				absorb(call.Args[i], src)
+			}
+		}
+	}
 }
 
 // a method call on an addressable non-pointer value may hand out pointers into it
@@ -635,7 +710,12 @@ func (a *effAnalysis) summary(fn *types.Func, consts map[int]bool) effSet {
 		return s
 	}
 	if a.active[key] {
-		return effSet{} // recursion: the fixpoint below is not needed for this code base (no recursion in the API); reported if it appears
+		// a cycle (e.g. get -> v.UnmarshalBinary -> every UnmarshalBinary of the package -> get):
+		// the result of the previous round; the rounds are repeated until nothing changes
+		if s, ok := a.prev[key]; ok {
+			return s
+		}
+		return effSet{}
 	}
 	fd := a.decls[fn]
 	if fd == nil || fd.Body == nil {
@@ -655,6 +735,15 @@ func (a *effAnalysis) newCtx(fd *ast.FuncDecl, consts map[int]bool) *fnCtx {
 	if fd.Recv != nil && len(fd.Recv.List) == 1 && len(fd.Recv.List[0].Names) == 1 {
 		if v, ok := a.info.Defs[fd.Recv.List[0].Names[0]].(*types.Var); ok {
 			c.recv = v
+		}
+	}
+	if fd.Type.Results != nil {
+		for _, f := range fd.Type.Results.List {
+			for _, n := range f.Names {
+				if v, ok := a.info.Defs[n].(*types.Var); ok {
+					c.results = append(c.results, v)
+				}
+			}
 		}
 	}
 	i := 0
@@ -856,6 +945,37 @@ func (c *fnCtx) run() {
 				}
 			}
 		}
+		// two locals one of which was assigned from (part of) the other may refer to the same
+		// object: what one comes to reach, the other reaches
+		alias := func(id *ast.Ident, rhs ast.Expr) {
+			r := rootLocal(rhs)
+			if r == nil || id.Name == "_" {
+				return
+			}
+			a, ok1 := c.a.info.ObjectOf(id).(*types.Var)
+			b, ok2 := c.a.info.ObjectOf(r).(*types.Var)
+			if !ok1 || !ok2 || a == b || !isRef(a.Type()) || !isRef(b.Type()) {
+				return
+			}
+			for _, v := range []*types.Var{a, b} {
+				if v == c.recv {
+					return
+				}
+				if _, isParam := c.params[v]; isParam {
+					return
+				}
+				if v.Pkg() != nil && v.Parent() == v.Pkg().Scope() {
+					return
+				}
+			}
+			merge(c.locals, a, c.locals[b])
+			merge(c.locals, b, c.locals[a])
+		}
+		absorbOrig := func(dst ast.Expr, o orig) {
+			if id := rootLocal(dst); id != nil && id.Name != "_" {
+				bind(id, o, orig{})
+			}
+		}
 		c.walk(c.body, func(n ast.Node) {
 			switch s := n.(type) {
 			case *ast.AssignStmt:
@@ -863,6 +983,7 @@ func (c *fnCtx) run() {
 					for i, l := range s.Lhs {
 						if id, ok := l.(*ast.Ident); ok && id.Name != "_" {
 							bind(id, c.deep(s.Rhs[i]), c.memOf(s.Rhs[i]))
+							alias(id, s.Rhs[i])
 						} else if !ok {
 							absorb(l, s.Rhs[i])
 						}
@@ -873,6 +994,9 @@ func (c *fnCtx) run() {
 						if id, ok := l.(*ast.Ident); ok && id.Name != "_" {
 							if t := c.typeOf(id); t == nil || isRef(t) {
 								bind(id, o, o)
+								if ta, ok := s.Rhs[0].(*ast.TypeAssertExpr); ok {
+									alias(id, ta.X) // x, ok := y.(T)
+								}
 							}
 						}
 					}
@@ -907,6 +1031,29 @@ func (c *fnCtx) run() {
 			case *ast.CallExpr:
 				if c.builtinName(s) == "copy" && len(s.Args) == 2 {
 					absorb(s.Args[0], s.Args[1])
+				}
+				// an in-package callee: what its summary says it stores where
+				if fn := c.staticCallee(s); fn != nil && fn.Pkg() == c.a.tp && c.a.decls[fn] != nil {
+					c.absorbBySummary(s, fn, c.a.summary(fn, c.literalBools(s)), absorbOrig)
+					return
+				}
+				if sel, ok := s.Fun.(*ast.SelectorExpr); ok {
+					if sl, ok := c.a.info.Selections[sel]; ok && sl.Kind() == types.MethodVal {
+						if _, isIface := sl.Recv().Underlying().(*types.Interface); isIface {
+							if n, named := sl.Recv().(*types.Named); !named || n.Obj().Pkg() == c.a.tp {
+								found := false
+								for fn := range c.a.decls {
+									if fn.Name() == sel.Sel.Name && fn.Type().(*types.Signature).Recv() != nil {
+										found = true
+										c.absorbBySummary(s, fn, c.a.summary(fn, nil), absorbOrig)
+									}
+								}
+								if found {
+									return
+								}
+							}
+						}
+					}
 				}
 				// a call may store any of its arguments in what its receiver or a pointer argument refers to
 				if c.builtinName(s) == "" && !c.isConversion(s) {
@@ -968,11 +1115,37 @@ func (c *fnCtx) run() {
 func (c *fnCtx) stmt(n ast.Node) {
 	switch s := n.(type) {
 	case *ast.AssignStmt:
-		for _, l := range s.Lhs {
+		for i, l := range s.Lhs {
 			if id, ok := l.(*ast.Ident); ok && (id.Name == "_" || s.Tok == token.DEFINE) {
 				continue
 			}
 			c.write(c.locOrigins(l), "assignment", l)
+			if len(s.Lhs) == len(s.Rhs) {
+				if t := c.typeOf(s.Rhs[i]); t == nil || isRef(t) {
+					c.retain(c.locOrigins(l), c.deep(s.Rhs[i]), "assignment", l)
+				}
+			} else if len(s.Rhs) == 1 {
+				c.retain(c.locOrigins(l), c.deep(s.Rhs[0]), "assignment", l)
+			}
+		}
+	case *ast.ReturnStmt:
+		if len(s.Results) == 0 {
+			for i, v := range c.results { // a bare return hands back the named results
+				for o := range c.locals[v] {
+					if o != "fresh" && o != "unknown" {
+						c.eff.add(fmt.Sprintf("result|%d|%s", i, o), c.where(s))
+					}
+				}
+			}
+		}
+		for i, e := range s.Results {
+			if t := c.typeOf(e); t == nil || isRef(t) {
+				for o := range c.deep(e) {
+					if o != "fresh" && o != "unknown" {
+						c.eff.add(fmt.Sprintf("result|%d|%s", i, o), c.where(e))
+					}
+				}
+			}
 		}
 	case *ast.IncDecStmt:
 		c.write(c.locOrigins(s.X), "inc/dec", s)
@@ -1006,6 +1179,11 @@ func (c *fnCtx) call(call *ast.CallExpr) {
 	switch c.builtinName(call) {
 	case "copy":
 		c.write(c.memOf(call.Args[0]), "copy", call)
+		if t := c.typeOf(call.Args[0]); t != nil {
+			if sl, ok := t.Underlying().(*types.Slice); ok && isRef(sl.Elem()) {
+				c.retain(c.memOf(call.Args[0]), c.deep(call.Args[1]), "copy of references", call)
+			}
+		}
 		return
 	case "delete", "clear":
 		c.write(c.memOf(call.Args[0]), "delete/clear", call)
@@ -1090,6 +1268,31 @@ func (c *fnCtx) recvExprOf(call *ast.CallExpr) ast.Expr {
 	return nil
 }
 
+// mapSide: what "recv", "param:i" or "global:x" of a callee's summary is at this call site
+func (c *fnCtx) mapSide(call *ast.CallExpr, sig *types.Signature, x string) orig {
+	o := orig{}
+	switch {
+	case x == "recv":
+		if rx := c.recvExprOf(call); rx != nil {
+			o.addAll(c.deep(rx))
+			o.addAll(c.locOriginsIfAddr(rx))
+		}
+	case strings.HasPrefix(x, "param:"):
+		var i int
+		fmt.Sscanf(x, "param:%d", &i)
+		if sig.Variadic() && i >= sig.Params().Len()-1 {
+			for _, a := range call.Args[min(i, len(call.Args)):] {
+				o.addAll(c.deep(a))
+			}
+		} else if i < len(call.Args) {
+			o.addAll(c.deep(call.Args[i]))
+		}
+	default:
+		o[x] = true
+	}
+	return o
+}
+
 func (c *fnCtx) mapEffects(call *ast.CallExpr, fn *types.Func, s effSet) {
 	sig := fn.Type().(*types.Signature)
 	for k, w := range s {
@@ -1123,6 +1326,12 @@ func (c *fnCtx) mapEffects(call *ast.CallExpr, fn *types.Func, s effSet) {
 			} else if i < len(call.Args) {
 				c.write(c.origins(call.Args[i]), what, call)
 			}
+		case strings.HasPrefix(k, "result|"):
+			// what a call returns is over-approximated at the call site (callOrigins)
+		case strings.HasPrefix(k, "retain|"):
+			parts := strings.SplitN(k, "|", 3)
+			side := func(x string) orig { return c.mapSide(call, sig, x) }
+			c.retain(side(parts[1]), side(parts[2]), what, call)
 		default:
 			c.eff.add(k, c.where(call)+" "+what)
 		}
@@ -1359,6 +1568,36 @@ func genEffects(p *pkg, out string) {
 			return true
 		})
 	}
+	// summaries of all functions, repeated until a round changes nothing (cycles take the
+	// previous round's result)
+	a.prev = map[string]effSet{}
+	for round := 0; round < 8; round++ {
+		a.memo = map[string]effSet{}
+		for _, k := range keys {
+			if fn, ok := info.Defs[p.funcs[k].Name].(*types.Func); ok {
+				a.summary(fn, nil)
+			}
+		}
+		same := len(a.memo) == len(a.prev)
+		if same {
+			for k, s := range a.memo {
+				ps := a.prev[k]
+				if len(ps) != len(s) {
+					same = false
+					break
+				}
+				for e := range s {
+					if _, ok := ps[e]; !ok {
+						same = false
+					}
+				}
+			}
+		}
+		a.prev = a.memo
+		if same {
+			break
+		}
+	}
 	type finding struct{ method, effect, where string }
 	var findings []finding
 	var methods []string
@@ -1391,6 +1630,9 @@ func genEffects(p *pkg, out string) {
 		}
 		sort.Strings(eks)
 		for _, e := range eks {
+			if strings.HasPrefix(e, "retain|") || strings.HasPrefix(e, "result|") {
+				continue // aliasing facts, used for the decoders below; every store is also a write effect
+			}
 			if strings.HasPrefix(e, "param:") {
 				// the caller's own writer / buffer: WriteTo(w), dump(w), Dump(w, p), fill(b, i)
 				if name == "WriteTo" || name == "dump" || name == "Dump" || name == "fill" {
@@ -1436,6 +1678,39 @@ func genEffects(p *pkg, out string) {
 			}
 		}
 	}
+	// the decoders: UnmarshalBinary of any type must not leave the receiver holding a reference
+	// into its data argument; ReadPacket / ReadRemaining must not return a packet that reaches
+	// into the reader
+	var retains []finding
+	var decoders []string
+	for _, k := range keys {
+		fd := p.funcs[k]
+		fn, ok := info.Defs[fd.Name].(*types.Func)
+		if !ok {
+			continue
+		}
+		name := fd.Name.Name
+		isDec := name == "UnmarshalBinary" && fd.Recv != nil
+		isRead := k == "ReadPacket" || k == "fixedHeader.ReadRemaining"
+		if !isDec && !isRead {
+			continue
+		}
+		decoders = append(decoders, k)
+		s := a.summary(fn, nil)
+		var eks []string
+		for e := range s {
+			eks = append(eks, e)
+		}
+		sort.Strings(eks)
+		for _, e := range eks {
+			switch {
+			case isDec && strings.HasPrefix(e, "retain|recv|param:"):
+				retains = append(retains, finding{k, e, s[e]})
+			case isRead && strings.HasPrefix(e, "result|0|param:"):
+				retains = append(retains, finding{k, e, s[e]})
+			}
+		}
+	}
 	var b strings.Builder
 	b.WriteString("(* generated by tools/gosync (effects.go) - do not edit *)\nFrom Coq Require Import List String.\nImport ListNotations.\nOpen Scope string_scope.\n\n")
 	b.WriteString("(* memory not allocated by the call itself that a method of the read-only API may write,\n   over every path, in-package call, closure and interface dispatch: (method, what, where) *)\n")
@@ -1452,6 +1727,20 @@ func genEffects(p *pkg, out string) {
 			b.WriteString(";\n   ")
 		}
 		fmt.Fprintf(&b, "(%q, %q, %q)", f.method, f.effect, f.where)
+	}
+	b.WriteString("].\n\n(* the decoders: a receiver left holding a reference into the data argument, a returned packet\n   that reaches into the reader or a package-level variable: (function, what, where) *)\nDefinition g_decoder_retains : list (string * string * string) :=\n  [")
+	for i, f := range retains {
+		if i > 0 {
+			b.WriteString(";\n   ")
+		}
+		fmt.Fprintf(&b, "(%q, %q, %q)", f.method, f.effect, f.where)
+	}
+	b.WriteString("].\nDefinition g_decoders : list string :=\n  [")
+	for i, d := range decoders {
+		if i > 0 {
+			b.WriteString("; ")
+		}
+		fmt.Fprintf(&b, "%q", d)
 	}
 	b.WriteString("].\n\n(* the methods analysed *)\nDefinition g_readonly_methods : list string :=\n  [")
 	for i, m := range methods {
@@ -1470,6 +1759,9 @@ func genEffects(p *pkg, out string) {
 		"Lemma sync_readonly_effects : g_readonly_effects = [].\nProof. reflexivity. Qed.\n\n" +
 		"(* no function of the package keeps state between calls in package-level variables *)\n" +
 		"Lemma sync_no_global_state : g_global_effects = [].\nProof. reflexivity. Qed.\n\n" +
+		"(* no decoder leaves the packet holding a reference into the bytes it was given *)\n" +
+		"Lemma sync_decoders_copy : g_decoder_retains = [].\nProof. reflexivity. Qed.\n\n" +
+		"Lemma sync_decoders_covered : List.length g_decoders = 27%nat.\nProof. reflexivity. Qed.\n\n" +
 		"(* and the analysis covered the API the model calls read-only *)\n" +
 		"Lemma sync_readonly_methods :\n  forallb (fun m => existsb (String.eqb m) g_readonly_methods) readonly_api = true.\nProof. vm_compute. reflexivity. Qed.\n"
 	os.WriteFile(filepath.Join(out, "SyncEffects.v"), []byte(sync), 0o644)
